@@ -67,7 +67,7 @@ def run(tier):
     bins = common.build("rel", ("fontc", "voracle"))
     n = 18 if tier == "quick" else 200
     srcs = gensrc.sources_for("C12", chk, n)
-    comparisons = nontrivial = 0
+    comparisons = nontrivial = partial = 0
     samples = []
     for res in pmap(lambda ic: one_source(bins, chk, ic[0], ic[1]), list(enumerate(srcs)), workers=8):
         rel = os.path.basename(os.path.dirname(res["source"]))
@@ -80,10 +80,14 @@ def run(tier):
             o = res["oracle"]
             comparisons += o["glyph_location_comparisons"]
             nontrivial += o["composite_glyph_builds"]
+            partial += o.get("comparisons_at_masters_a_component_lacks", 0)
             for v in o["violations"][:12]:
                 kind = "advance" if "advance" in v["what"] else ("shape" if "outline differs" in v["what"] else "other")
                 fam = rel.rsplit("-", 2)[0]
-                chk.violation(f"c12:{kind}:{v.get('opts', '')}:{'overflow' if 'overflow' in fam else 'plain'}", f"{rel}: {v['what']}",
+                sig = f"c12:{kind}:{v.get('opts', '')}:{'overflow' if 'overflow' in fam else 'plain'}"
+                if v.get("class"):
+                    sig = f"c12:{v['class']}:{kind}"
+                chk.violation(sig, f"{rel}: {v['what']}",
                               replay={"source": res["source"], "opts": v.get("opts")}, files=[os.path.dirname(res["source"])])
             for sub, (rc, err) in res["fails"].items():
                 chk.violation(f"c12:option-set-fails:{' '.join(sub)}", f"{rel}: builds with --decompose-components but fails (rc {rc}) with {sub}: {err}", replay={"source": res["source"], "opts": list(sub)})
@@ -96,7 +100,7 @@ def run(tier):
                 "component glyphs, variable offsets; each built under all 16 option subsets; every exported source glyph drawn at each master and 5 random "
                 "locations and compared with the fully decomposed build (contours up to start point / direction, tolerance 1.05 units per nesting level; "
                 "advances equal); evaluations = builds; non-trivial = (composite glyph, build) pairs compared",
-        "samples": samples, "glyph_location_comparisons": comparisons,
+        "samples": samples, "glyph_location_comparisons": comparisons, "comparisons_at_masters_a_component_lacks": partial,
     })
     chk.assumptions += ["skrifa is used only as the renderer that resolves components and applies gvar; the comparison is between builds, not against skrifa"]
     return chk.finish()
